@@ -52,8 +52,10 @@ EqualFold(s, t) == FoldStr(s) = FoldStr(t)
 
 \* Scanning works on the tuple of characters of a string (TLC's SubSeq on strings is slow, tuple
 \* indexing is not); pieces are cut out of the original string with one SubSeq each.
-\* (TLC keeps [i \in S |-> e] unevaluated and re-evaluates e at every application; \o <<>> forces a tuple)
+\* TLC keeps [x \in S |-> e] unevaluated and re-evaluates e at every application: \o <<>> forces a
+\* tuple, @@ NoFcn a tabulated function.
 Force(f) == f \o <<>>
+NoFcn    == [x \in {} |-> 0]
 Chars(s) == Force([i \in 1..Len(s) |-> SubSeq(s, i, i)])
 RECURSIVE Find(_, _, _, _)     \* least i in from..to with cs[i] = c, else to + 1
 Find(cs, c, from, to) == IF from > to THEN to + 1 ELSE IF cs[from] = c THEN from ELSE Find(cs, c, from + 1, to)
@@ -100,10 +102,8 @@ Uint(s) == UintFrom(s, 1, 0)          \* only for IsUint(s); saturates above 100
 
 \* fmtp.go parseParameters: split on ";", trim each piece, split at the first "=", lower-case the
 \* key, keep the value as it is; a later duplicate key overwrites an earlier one.
-\* (TLC re-evaluates a LET definition at every use but evaluates an operator argument once, so
-\* values used several times are passed as arguments.)
 PPFromKvs(kvs) ==
-  [k \in {kvs[i].k : i \in 1..Len(kvs)} |-> kvs[Max({i \in 1..Len(kvs) : kvs[i].k = k})].v]
+  [k \in {kvs[i].k : i \in 1..Len(kvs)} |-> kvs[Max({i \in 1..Len(kvs) : kvs[i].k = k})].v] @@ NoFcn
 PPFromRanges(line, cs, rs) ==
   PPFromKvs(Force([i \in 1..Len(rs) |->
      LET r == KeyValueIn(line, cs, rs[i].lo, rs[i].hi) IN [k |-> LowerStr(r.k), v |-> r.v]]))
@@ -121,7 +121,7 @@ MimeFrom(mf, ml) ==
 ParseMime(mime) == MimeFrom(FoldStr(mime), LowerStr(mime))
 LineFrom(ps) ==
   [p    |-> ps,
-   pf   |-> [k \in DOMAIN ps |-> FoldStr(ps[k])],
+   pf   |-> [k \in DOMAIN ps |-> FoldStr(ps[k])] @@ NoFcn,
    plid |-> IF "profile-level-id" \in DOMAIN ps THEN PlidKey(ps["profile-level-id"]) ELSE "none"]
 ParseLine(line) == LineFrom(ParseParameters(line))
 Assemble(M, clock, ch, L) ==
@@ -130,7 +130,7 @@ Parse(mime, clock, ch, line) == Assemble(ParseMime(mime), clock, ch, ParseLine(l
 \* The same with a cache: a record [lines, mimes] of two functions, fmtp line -> ParseLine(line) and
 \* mime type -> ParseMime(mime), for some lines / mime types.  Pure optimisation (parsing a string is
 \* slow in TLC); a string that is not in the domain is parsed.
-EmptyCache == [lines |-> [l \in {} |-> 0], mimes |-> [m \in {} |-> 0]]
+EmptyCache == [lines |-> NoFcn, mimes |-> NoFcn]
 ParseLineC(cache, line) == IF line \in DOMAIN cache.lines THEN cache.lines[line] ELSE ParseLine(line)
 ParseMimeC(cache, mime) == IF mime \in DOMAIN cache.mimes THEN cache.mimes[mime] ELSE ParseMime(mime)
 ParseC(cache, mime, clock, ch, line) == Assemble(ParseMimeC(cache, mime), clock, ch, ParseLineC(cache, line))
